@@ -23,6 +23,8 @@ def build_registry() -> Registry:
     mbox_c.declare_recovery(reg)
     mbox_c.declare_store(reg)
     mbox_c.declare_concurrency_oracles(reg)
+    mbox_c.declare_rename_inbox(reg)
+    mbox_c.declare_rename_folder(reg)
     from . import search_c
 
     search_c.declare_text_keys(reg)
